@@ -115,7 +115,7 @@ theorem lG6_reconcile (w : World) (wl : WL) (s1 : Sub) (hg : RoGood w.ro) (hph :
     rw [hs1]
     dsimp only
     rw [if_neg (by simp [hc]), hd]
-  have hrec := reconcile_finalising_eq w wl ns _ false false _ hhf hcs hph hr hwl hc hfz
+  have hrec := reconcile_finalising_eq w wl ns _ false false _ hhf hcs hph hr hwl hc hfz hg.notDeleting hg.enabled
   rw [if_neg (by simp), if_neg (by simp)] at hrec
   refine ⟨[] ++ c'.writes, ?_⟩
   rw [hrec]
